@@ -172,7 +172,9 @@ func TestVerif_C10(t *testing.T) {
 	cfgStride := pick(r, 9, 1)
 	nRand := pick(r, 6, 24)
 	presets := [][]string{nil, {"Accept-Encoding"}, {"Accept-Encoding", "Cookie, X-Pre"}, {"Origin"}, {"Access-Control-Request-Headers"}, {""},
-		{"Accept-Encoding, Origin"}, {"origin", "Access-Control-Request-Method"}, {"Access-Control-Request-Private-Network, Origin"}}
+		{"Accept-Encoding, Origin"}, {"origin", "Access-Control-Request-Method"}, {"Access-Control-Request-Private-Network, Origin"},
+		{"X-Original-Host"}, {"Origin-Agent-Cluster"}, {"X-Origin"}, {"Access-Control-Request-Headers-X, Accept"}, {"rigin"}, {"*"},
+		{"Access-Control-Request-Headers, Access-Control-Request-Method, Access-Control-Request-Private-Network, Origin"}}
 	r.Parallel(len(prod), func(l *Local) {
 		if l.Batch < nProd && !r.visit(l.Batch, cfgStride) {
 			return
